@@ -411,6 +411,10 @@ def check_init(case, stats):
     # can only establish by comparing with the documented initialisation below
     pass
   if L.shape != (kk, d):
+    eff_ = opt if opt != 'auto' else ('lda' if lda_ok else None)
+    if eff_ == 'lda' and L.shape[1] == d and L.shape[0] < kk and E.lda_rank_short(data.X, y, kk):
+      raise Violation('C20/init/shape/%s/lda-rank-short' % name,
+                      '%s, expected %s: scikit-learn LDA returns only %d discriminant directions for this data' % (L.shape, (kk, d), L.shape[0]))
     raise Violation('C20/init/shape/' + tag, '%s, expected %s' % (L.shape, (kk, d)))
   eff = opt
   if opt == 'auto':
